@@ -182,9 +182,13 @@ class Engine:
         if prefetch:
             self.ensure_refs(prefetch)
 
+        sub = int(os.environ.get("NSIM_SUBSAMPLE", "0") or 0)
+
         def gen():
             batch = []
             for item in scenario_iter:
+                if sub and item[0] % sub:
+                    continue
                 batch.append(item)
                 if len(batch) >= 256:
                     self.ensure_refs([s for _, s in batch])
@@ -456,6 +460,7 @@ def conclude(engine, seed, out=print, minimise_budget=45.0):
     unlisted = []
     known_hit = []
     reported = 0
+    reproduced = 0
     harness_problem = False
     for key in keys:
         v = engine.found[key]
@@ -487,17 +492,14 @@ def conclude(engine, seed, out=print, minimise_budget=45.0):
                 out(log2[-2000:])
                 harness_problem = True
                 continue
+        reproduced += 1
         out(f"VIOLATION property={v.prop} replay={path}")
         out(f"  clause={v.clause} site={v.site} occurrences={engine.found_count.get(v.key)} first_run={v.idx}")
         if v.detail:
             out("  detail=" + json.dumps(v.detail, default=str)[:600])
     code = 0
-    if unlisted:
+    if reproduced:
         code = 1
-    if harness_problem and not any_reported_violation(unlisted):
+    elif harness_problem:
         code = 2
     return code, len(unlisted), known_hit
-
-
-def any_reported_violation(unlisted):
-    return bool(unlisted)
